@@ -303,15 +303,22 @@ class IncludeStream(Stream):
 
     def table(self, case, base):
         """the file-system + parser oracle: every file parsed by the real parser, no include processing"""
+        cache = self.__dict__.setdefault("_tab_cache", {})
         tab = []
         for rel, text in case["files"]:
-            try:
-                t = self.fp.parse(input_string=subst(text, base))
-                tab.append([base + "/" + rel, ["ok", [obj_sx(o) for o in t.objects]]])
-            except RuntimeError as e:
-                tab.append([base + "/" + rel, ["bad", err_line(str(e))]])
-            except Exception:  # noqa - not a refusal of the parser: the model will disagree, as it should
-                tab.append([base + "/" + rel, ["bad", 0]])
+            ent = cache.get(text)
+            if ent is None:
+                try:
+                    t = self.fp.parse(input_string=subst(text, base))
+                    ent = ["ok", [obj_sx(o) for o in t.objects]]
+                except RuntimeError as e:
+                    ent = ["bad", err_line(str(e))]
+                except Exception:  # noqa - not a refusal of the parser: the model will disagree, as it should
+                    ent = ["bad", 0]
+                if len(cache) > 20000:
+                    cache.clear()
+                cache[text] = ent
+            tab.append([base + "/" + rel, ent])
         return tab
 
     def requests(self, case, o):
